@@ -259,7 +259,8 @@ pub fn gen_plan(rng: &mut Rng, variant: u64, tier: Tier, only_commit_and_log_tai
 						burst_pending = false;
 						let mut ks = pools[c as usize].clone();
 						rng.shuffle(&mut ks);
-						ks.truncate(rng.range(130, ks.len() as u64) as usize);
+						let hi = ks.len() as u64;
+						ks.truncate(rng.range(hi.min(130), hi) as usize);
 						for k in ks {
 							let v = if o.preimage { gen::value_for_key(&k, false) } else { rng.bytes_in(0, 40) };
 							tx.push(Op::Set(c, k, v));
